@@ -8,7 +8,8 @@ Ok requires length 64, both signature bytes and a known mechanism. (R04.2) the c
 all 144 pairs from the function body and the constant table, is total (no assert can fail), symmetric and equal to the
 RFC table. (R04.3) identity rule: tuple constructor only on a path with 1 <= len <= 255 (exactly) or in new();
 empty -> new(). (R04.4) each backend registers a peer at most once per path, with overwrite semantics, keyed by the
-handshake's identity. (R04.5) accept failure is reported with a non-blocking try_send(AcceptFailed); connect propagates.
+handshake's identity (the scc entry API overwrites only through Entry::insert_entry). (R04.5) accept failure is reported with a
+non-blocking try_send(AcceptFailed) to the monitor looked up after the handshake finished; connect propagates.
 Does NOT decide that every well-formed peer is eventually admitted, nor uniqueness of generated UUIDs."""
 from ..sym import Sym, show, walk_expr, interval_of
 from ..facts import callee_name
@@ -395,6 +396,16 @@ def check_registration(f, rep):
                             used = True
                     rep.check(used, "R04.4", "R04.4|%s|overwrite" % ty,
                               "%s registers with %s, which refuses an existing key, and ignores the outcome: a reconnecting peer with the same identity keeps the dead connection" % (ty, n), co.loc(e.bb))
+                elif n.startswith("entry_"):
+                    # the entry API overwrites only through Entry::insert_entry(v) on the undecided entry; or_insert*/and_modify or a
+                    # match on Occupied/Vacant keep (parts of) what an earlier connection with the same identity left behind
+                    follow = [short(e2.name) for j, e2 in pathq.calls(p) if j > i and ("scc::" in e2.name) and
+                              short(e2.name) in ("or_insert", "or_insert_with", "or_insert_with_key", "or_default", "and_modify", "insert_entry", "get_mut", "insert", "put_entry")]
+                    whole = follow == ["insert_entry"] and any("::Entry<" in e2.name or "Entry::<" in e2.name or "hash_map::Entry" in e2.name
+                                                               for j, e2 in pathq.calls(p, "insert_entry") if j > i and "Vacant" not in e2.name)
+                    rep.check(whole, "R04.4", "R04.4|%s|overwrite" % ty,
+                              "%s registers through the entry API (%s): only Entry::insert_entry replaces an existing entry; anything else lets a reconnecting peer "
+                              "with the same identity keep the dead connection's state" % (ty, follow), co.loc(e.bb))
                 else:
                     rep.ok("R04.4", "R04.4|%s|overwrite" % ty, "%s registers with %s (overwrite semantics)" % (ty, n), co.loc(e.bb))
             if tab:
@@ -415,6 +426,13 @@ def check_report(f, rep):
                     seen[a[3]] += 1
                     if short(ev.name) != "try_send":
                         blocking.append(short(ev.name))
+                    # the event goes to the monitor installed *now*: the sender is read from the monitor slot (lock()) after the
+                    # last suspension point, not captured before the handshake was awaited (monitor() may be called meanwhile)
+                    locks = [j for j, e2 in enumerate(p.events[:i]) if e2.kind == "call" and short(e2.name) == "lock" and "Mutex" in e2.name and
+                             any(y == e2.result for y in walk_expr(ev.args[0]))]
+                    fresh = bool(locks) and not any(e2.kind == "yield" for e2 in p.events[locks[-1]:i])
+                    rep.check(fresh, "R04.5", "R04.5|current-monitor|%s" % a[3],
+                              "%s is sent to the monitor looked up after the handshake finished (lock() of the monitor slot with no suspension point before the try_send: %s)" % (a[3], fresh), b.loc(ev.bb))
                     if a[3] == "AcceptFailed":
                         err_arm = any(e[0] == "discr" and c == ("eq", 1) for (e, c, _, _) in p.conds[:ev.ncond])
                         rep.check(err_arm, "R04.5", "R04.5|accept-failed-on-err", "AcceptFailed is emitted on the Err arm of the handshake result", b.loc(ev.bb))
